@@ -280,6 +280,7 @@ type C19Prog struct {
 	Tail       map[int]bool
 	WorkerLine int // first marked line of the goroutine's function
 	TailLast   int // last marked line of the tail
+	WorkerEntry int // line of the first statement of the goroutine's function (unmarked)
 }
 
 // GenC19 draws a sequential marker program: every statement is written as
@@ -422,6 +423,7 @@ func GenC19(tape *Tape) *C19Prog {
 		g.raw("")
 	}
 	g.raw("func worker(x int, ch, start chan int) {")
+	workerEntry := g.line + 1 // where a function breakpoint on worker stops (no marker: judged by count)
 	g.raw("\t<-start")
 	g.raw("\tr := x + 1")
 	g.fline["worker"] = g.stmt(1, "defer func() {")
@@ -500,14 +502,14 @@ func GenC19(tape *Tape) *C19Prog {
 	}
 	g.stmt(1, "fmt.Println(\"end\", x)")
 	g.raw("}")
-	funcs := append([]string{"add", "safe", "rec", "spawn", "pos", "two", "bump", "fault", "outer2", "inner2", "loopg"}, g.funcs...)
+	funcs := append([]string{"add", "safe", "rec", "spawn", "pos", "two", "bump", "fault", "outer2", "inner2", "loopg", "worker"}, g.funcs...)
 	if hasLong {
 		funcs = append(funcs, "long")
 	}
 	if hasTail {
 		funcs = append(funcs, "tail")
 	}
-	return &C19Prog{Src: g.b.String(), Marks: g.marks, FLine: g.fline, Funcs: funcs, Tail: tail, WorkerLine: g.fline["worker"], TailLast: tailLast}
+	return &C19Prog{Src: g.b.String(), Marks: g.marks, FLine: g.fline, Funcs: funcs, Tail: tail, WorkerLine: g.fline["worker"], TailLast: tailLast, WorkerEntry: workerEntry}
 }
 
 type c19Result struct {
@@ -788,7 +790,11 @@ func RunC19(t *testing.T, tape *Tape) *Outcome {
 	switchAt := 0
 	if prog != nil && len(prog.Tail) == 0 && len(lineBP) > 0 && tape.Choose(3) == 2 {
 		switchAt = 1 + tape.Choose(4)
-		funcBP2 = append(funcBP2, prog.Funcs[tape.Choose(len(prog.Funcs))])
+		if f2 := prog.Funcs[tape.Choose(len(prog.Funcs))]; f2 == "worker" {
+			funcBP2 = append(funcBP2, prog.Funcs[0])
+		} else {
+			funcBP2 = append(funcBP2, f2)
+		}
 		for _, l := range lines {
 			if tape.Choose(3) == 0 && prog.FLine[funcBP2[0]] != l {
 				lineBP2 = append(lineBP2, l)
@@ -1306,7 +1312,7 @@ func RunC19(t *testing.T, tape *Tape) *Outcome {
 				}
 			}
 			for _, e := range events {
-				if e.reason == interp.DebugBreak {
+				if e.reason == interp.DebugBreak && e.line != prog.WorkerEntry {
 					got = append(got, e.line)
 				}
 			}
@@ -1378,10 +1384,17 @@ func RunC19(t *testing.T, tape *Tape) *Outcome {
 			o.FaultFired["breakpoint-set-replaced-mid-session"]++
 		}
 		tailGot := map[int]int{}
+		entryGot := 0
 		for _, e := range events {
 			if e.reason == interp.DebugBreak {
 				if prog.Tail[e.line] {
 					tailGot[e.line]++
+					continue
+				}
+				if e.line == prog.WorkerEntry {
+					// function breakpoint on the goroutine's function: reported by the
+					// new goroutine, concurrently with its parent
+					entryGot++
 					continue
 				}
 				got = append(got, e.line)
@@ -1403,6 +1416,8 @@ func RunC19(t *testing.T, tape *Tape) *Outcome {
 			o.addV("C19", "trace", "marker-trace-differs bp="+bpk, "%s: statements executed under the debugger %v, plainly %v", o.Desc, clipInts(ticks), clipInts(ref.ticks))
 		} else if fmt.Sprint(got) != fmt.Sprint(want) {
 			o.addV("C19", "breakpoints", "breakpoint-report-mismatch bp="+bpk+" "+bpDiff(got, want), "%s: break events at lines %v, executed breakpoint lines %v", o.Desc, clipInts(got), clipInts(want))
+		} else if wantEntry := map[bool]int{true: ref.workers}[fline[prog.WorkerEntry] && ticksAtSwitch < 0]; (fline[prog.WorkerEntry] || entryGot > 0) && ticksAtSwitch < 0 && entryGot != wantEntry {
+			o.addV("C19", "breakpoints", "breakpoint-report-mismatch bp="+bpk+" goroutine-entry", "%s: %d break events at the entry of the goroutine's function (line %d), %d goroutines were started with a function breakpoint on it", o.Desc, entryGot, prog.WorkerEntry, wantEntry)
 		} else if len(prog.Tail) > 0 {
 			// the part of each goroutine which runs concurrently with main: the
 			// session ends only when it is over, every line of it runs once per
@@ -1477,7 +1492,9 @@ func RunC19(t *testing.T, tape *Tape) *Outcome {
 		for _, e := range events2 {
 			switch e.reason {
 			case interp.DebugBreak:
-				got2 = append(got2, e.line)
+				if e.line != prog.WorkerEntry {
+					got2 = append(got2, e.line)
+				}
 			case interp.DebugTerminate:
 				nterm2++
 			}
